@@ -29,7 +29,7 @@ def Ctx.logCI (c i : Nat) : List Event :=
 def mkSt (now : Nat) (ready : List Handle) (timers : List Timer) (seq : Option Seq) (log : List Event) : St :=
   { now := now, ready := ready, timers := timers, port := { Port.default with seq := seq }, waiting := none,
     nextId := 1, log := log, subs := log.length, cap := 0, maxItems := 256, stopped := false, overlap := false,
-    marks := [] }
+    disLat := 0, disRaise := false, enLat := 0, enRaise := false, marks := [] }
 
 def Ctx.sq (c : Nat) (pos : Pos) : Seq := ⟨0, K.vs, K.ds, K.r, c, .pending pos false⟩
 
